@@ -323,9 +323,12 @@ class Server:
                         raise ServerBacklogFull(len(pipeline), perf_counter() - t0)
                     self._pipeline_notfull.wait(t)
 
-            self._input_buffer.put((uid, x))
             pipeline[uid] = fut
-            # See doc of counterpart methods in `AsyncServer`.
+            self._input_buffer.put((uid, x))
+            # The request must be in the ledger before it enters the pipeline,
+            # otherwise a fast worker's result can reach `_gather_output`
+            # before the ledger entry exists and gets dropped.
+            # `_input_buffer.put` never blocks and does not fail.
 
         fut.data['t1'] = perf_counter()
         return fut
